@@ -97,12 +97,23 @@ def run_one(m, worker=0, keep=False):
 
 
 def run(mutants, workers=4, out=sys.stdout):
+    import queue
     results = []
+    ids = queue.Queue()
+    for i in range(workers):
+        ids.put(i)
+
+    def job(m):
+        w = ids.get()           # one target-dir suffix per concurrently running job
+        try:
+            return run_one(m, w)
+        finally:
+            ids.put(w)
+
     with concurrent.futures.ThreadPoolExecutor(max_workers=workers) as ex:
         futs = {}
         for i, m in enumerate(mutants):
-            futs[ex.submit(run_one, m, i % workers)] = m
-        # thread k may share a target dir with another thread of the same residue: the target lock serialises
+            futs[ex.submit(job, m)] = m
         for f in concurrent.futures.as_completed(futs):
             r = f.result()
             results.append(r)
